@@ -1,16 +1,19 @@
 /-
 C02 — all wire renderings of one body parse to the same, faithful tree (DESIGN 6.2).
 
-`Renders false` is the full grammar of DESIGN 6.2; `Renders true` adds the two local side conditions
-G2 (no whitespace between `]]>` and the element's own end tag) and G3 (the last child of an aggregate is not a
-data element bearing the aggregate's tag).  (The former guard G1 — one `]]>` per line — is gone since /repo's
-`fix: CDATA element data ends at the first ]]>`; its witness is now a positive example, `C02_G1_repaired`.)
+`Renders false` is the full grammar of DESIGN 6.2; `Renders true` adds the one local side condition
+G3 (the last child of an aggregate is not a data element bearing the aggregate's tag).  Two former guards are gone:
+G1 — one `]]>` per line — since /repo's `fix: CDATA element data ends at the first ]]>` (its witness is the positive
+example `C02_G1_repaired`); G2 — no whitespace between `]]>` and the element's own end tag — since /repo's
+`fix: white space may follow a CDATA section` (its witness is the positive example `C02_G2_repaired`; the general
+case is the constructor `cdataClosed` of the strict grammar, lemma `cdataClosed_ok`).
 
-* `C02_complete_full`  (∀ full-grammar renderings) is still FALSE: `C02_complete_full_false` (G2 witness, now a
-  `ParseError`), `C02_G3_needed` (G3 witness, now a `ParseError` as well: valid renderings are rejected, no longer
-  mis-read).
+* `C02_complete_full`  (∀ full-grammar renderings) is still FALSE: `C02_complete_full_false` = `C02_G3_needed` (G3
+  witness, a `ParseError`: a valid rendering is rejected, not mis-read).
 * `C02_complete_partial`: every strict rendering — arbitrary nesting, every end-tag / whitespace / CDATA choice —
   parses to exactly the rendered tree.  `C02_complete_doc`: also with whitespace around the root.
+* `C02_complete_g3`: G3 is a condition on the *tree* alone (`g3Tree`): every full-grammar rendering of a tree that
+  satisfies it parses to that tree (`renders_strict_of_g3`: for such trees the two grammars coincide).
 * corollaries `C02_unique`, `C02_same`.
 -/
 import OfxProofs.Lemmas.Builder
@@ -270,25 +273,26 @@ theorem cdataOpen_ok (t d : Str) (ht : tagOk t = true) (hd : dataOk d = true) (h
   obtain ⟨hdne, -, -⟩ := dataOk_parts hd
   obtain ⟨htne, htc⟩ := tagChars ht
   have hg : containsSub cdataClose d = false := cdataOk_noClose hcd
-  have hcl : dropPrefix (endTag t) (w ++ rest) = none :=
-    dropPrefix_ws_or _ w rest ⟨_, rfl⟩ hw (hc.2 t rfl)
-  have hm := matchHere_cdata_open t d w rest htne htc hdne (cdataOk_notNl hcd) (ws_notLt hw) (after_stops hc.1) hg hcl
+  have hm := matchHere_cdata_open t d w rest htne htc hdne (cdataOk_notNl hcd) ((ws_iff w).mp hw) (after_stops hc.1) hg
+    (hc.2 t rfl)
   have e : (startTag t ++ cdataOf d) ++ (w ++ rest) = startTag t ++ (cdataOf d ++ (w ++ rest)) := by simp
   rw [e]
   refine run_tok' _ (startTag t ++ (cdataOf d ++ w)) rest _ st _ (by simp) (by simp [startTag]) hm rfl ?_
-  exact step_leaf t d (some d) none none _ _ st ht hdne (Or.inl rfl) (groom_ws w hw) (Or.inr ⟨rfl, rfl⟩) hst
+  exact step_leaf t d (some d) none none none _ st ht hdne (Or.inl rfl) rfl (Or.inr ⟨rfl, rfl⟩) hst
 
-theorem cdataClosed_ok (t d : Str) (ht : tagOk t = true) (hd : dataOk d = true) (hcd : cdataOk d = true) :
-    ElemOk (Tree.leaf t d) (startTag t ++ (cdataOf d ++ ([] ++ endTag t))) := by
+/-- `<t><![CDATA[d]]> w1 </t>`: any white space between the section and the element's own end tag (former guard G2) -/
+theorem cdataClosed_ok (t d w1 : Str) (ht : tagOk t = true) (hd : dataOk d = true) (hcd : cdataOk d = true)
+    (h1 : ws w1 = true) : ElemOk (Tree.leaf t d) (startTag t ++ (cdataOf d ++ (w1 ++ endTag t))) := by
   intro w rest st hw hc hst
   obtain ⟨hdne, -, -⟩ := dataOk_parts hd
   obtain ⟨htne, htc⟩ := tagChars ht
   have hg : containsSub cdataClose d = false := cdataOk_noClose hcd
-  have hm := matchHere_cdata_closed t d w rest htne htc hdne (cdataOk_notNl hcd) (ws_notLt hw) (after_stops hc.1) hg
-  have e : (startTag t ++ (cdataOf d ++ ([] ++ endTag t))) ++ (w ++ rest)
-      = startTag t ++ (cdataOf d ++ (endTag t ++ (w ++ rest))) := by simp
+  have hm := matchHere_cdata_closed t d w1 w rest htne htc hdne (cdataOk_notNl hcd) ((ws_iff w1).mp h1) (ws_notLt hw)
+    (after_stops hc.1) hg
+  have e : (startTag t ++ (cdataOf d ++ (w1 ++ endTag t))) ++ (w ++ rest)
+      = startTag t ++ (cdataOf d ++ (w1 ++ (endTag t ++ (w ++ rest)))) := by simp
   rw [e]
-  refine run_tok' _ (startTag t ++ (cdataOf d ++ (endTag t ++ w))) rest _ st _ (by simp) (by simp [startTag]) hm rfl ?_
+  refine run_tok' _ (startTag t ++ (cdataOf d ++ (w1 ++ (endTag t ++ w)))) rest _ st _ (by simp) (by simp [startTag]) hm rfl ?_
   exact step_leaf t d (some d) none (some t) _ _ st ht hdne (Or.inr rfl) (groom_ws w hw) (Or.inr ⟨rfl, rfl⟩) hst
 
 
@@ -378,10 +382,7 @@ theorem renders_ok {t : Tree} {s : Str} (h : Renders true t s) : ElemOk t s := b
   · intro t d w1 ht hd h1; exact leafOpen_ok t d w1 ht hd h1
   · intro t d w1 w2 ht hd h1 h2; exact leafClosed_ok t d w1 w2 ht hd h1 h2
   · intro t d ht hd hcd; exact cdataOpen_ok t d ht hd hcd
-  · intro t d w ht hd hcd _ hstrict
-    have : w = [] := hstrict rfl
-    subst this
-    exact cdataClosed_ok t d ht hd hcd
+  · intro t d w ht hd hcd hw; exact cdataClosed_ok t d w ht hd hcd hw
   · intro t w0 cs body ht h0 hl hself ih; exact agg_ok t w0 cs body ht h0 hl (hself rfl) ih
   · exact list_nil_ok
   · intro c cs s w s' hr hw hl ih1 ih2; exact list_cons_ok c cs s w s' hr hw hl ih1 ih2
@@ -393,10 +394,7 @@ theorem rendersList_ok {cs : List Tree} {body : Str} (h : RendersList true cs bo
   · intro t d w1 ht hd h1; exact leafOpen_ok t d w1 ht hd h1
   · intro t d w1 w2 ht hd h1 h2; exact leafClosed_ok t d w1 w2 ht hd h1 h2
   · intro t d ht hd hcd; exact cdataOpen_ok t d ht hd hcd
-  · intro t d w ht hd hcd _ hstrict
-    have : w = [] := hstrict rfl
-    subst this
-    exact cdataClosed_ok t d ht hd hcd
+  · intro t d w ht hd hcd hw; exact cdataClosed_ok t d w ht hd hcd hw
   · intro t w0 cs body ht h0 hl hself ih; exact agg_ok t w0 cs body ht h0 hl (hself rfl) ih
   · exact list_nil_ok
   · intro c cs s w s' hr hw hl ih1 ih2; exact list_cons_ok c cs s w s' hr hw hl ih1 ih2
@@ -434,6 +432,79 @@ theorem C02_unique (t t' : Tree) (s : Str) (h : Renders true t s) (h' : Renders 
 theorem C02_same (t : Tree) (s₁ s₂ : Str) (h₁ : Renders true t s₁) (h₂ : Renders true t s₂) : parse s₁ = parse s₂ := by
   rw [C02_complete_partial t s₁ h₁, C02_complete_partial t s₂ h₂]
 
+/-! ### the remaining guard is a condition on the tree alone -/
+
+mutual
+  /-- guard G3 as a predicate of the tree: at every aggregate, the last child is not a data element bearing the
+      aggregate's own tag -/
+  def g3Tree : Tree → Bool
+    | .node t _ _ cs => (match cs.getLast? with | some c => leafTag c != some t | none => true) && g3List cs
+  def g3List : List Tree → Bool
+    | [] => true
+    | c :: cs => g3Tree c && g3List cs
+end
+
+theorem g3Tree_leaf (t d : Str) : g3Tree (Tree.leaf t d) = true := by
+  simp [Tree.leaf, g3Tree, g3List]
+
+theorem g3Tree_agg (t : Str) (cs : List Tree) :
+    g3Tree (Tree.agg t cs) = ((match cs.getLast? with | some c => leafTag c != some t | none => true) && g3List cs) := by
+  simp [Tree.agg, g3Tree]
+
+/-- for a tree that satisfies G3 every rendering of the full grammar is a rendering of the strict grammar -/
+theorem renders_strict_of_g3 {t : Tree} {s : Str} (h : Renders false t s) : g3Tree t = true → Renders true t s := by
+  refine Renders.rec (strict := false) (motive_1 := fun t s _ => g3Tree t = true → Renders true t s)
+    (motive_2 := fun cs body _ => g3List cs = true → RendersList true cs body) ?_ ?_ ?_ ?_ ?_ ?_ ?_ h
+  · intro t d w1 ht hd h1 _; exact Renders.leafOpen t d w1 ht hd h1
+  · intro t d w1 w2 ht hd h1 h2 _; exact Renders.leafClosed t d w1 w2 ht hd h1 h2
+  · intro t d ht hd hcd _; exact Renders.cdataOpen t d ht hd hcd
+  · intro t d w ht hd hcd hw _; exact Renders.cdataClosed t d w ht hd hcd hw
+  · intro t w0 cs body ht h0 _ _ ih hg
+    rw [g3Tree_agg, Bool.and_eq_true] at hg
+    refine Renders.agg t w0 cs body ht h0 (ih hg.2) ?_
+    intro _ c hc
+    have := hg.1
+    rw [hc] at this
+    simpa using this
+  · intro _; exact RendersList.nil
+  · intro c cs s w s' _ hw _ ih1 ih2 hg
+    simp only [g3List, Bool.and_eq_true] at hg
+    exact RendersList.cons c cs s w s' (ih1 hg.1) hw (ih2 hg.2)
+
+/-- conversely a strict rendering is a rendering of the full grammar, of a tree that satisfies G3 -/
+theorem renders_strict_g3 {t : Tree} {s : Str} (h : Renders true t s) : Renders false t s ∧ g3Tree t = true := by
+  refine Renders.rec (strict := true) (motive_1 := fun t s _ => Renders false t s ∧ g3Tree t = true)
+    (motive_2 := fun cs body _ => RendersList false cs body ∧ g3List cs = true) ?_ ?_ ?_ ?_ ?_ ?_ ?_ h
+  · intro t d w1 ht hd h1; exact ⟨Renders.leafOpen t d w1 ht hd h1, g3Tree_leaf t d⟩
+  · intro t d w1 w2 ht hd h1 h2; exact ⟨Renders.leafClosed t d w1 w2 ht hd h1 h2, g3Tree_leaf t d⟩
+  · intro t d ht hd hcd; exact ⟨Renders.cdataOpen t d ht hd hcd, g3Tree_leaf t d⟩
+  · intro t d w ht hd hcd hw; exact ⟨Renders.cdataClosed t d w ht hd hcd hw, g3Tree_leaf t d⟩
+  · intro t w0 cs body ht h0 _ hself ih
+    refine ⟨Renders.agg t w0 cs body ht h0 ih.1 (by intro h; cases h), ?_⟩
+    rw [g3Tree_agg, Bool.and_eq_true]
+    refine ⟨?_, ih.2⟩
+    cases hl : cs.getLast? with
+    | none => rfl
+    | some c => simpa using hself rfl c hl
+  · exact ⟨RendersList.nil, rfl⟩
+  · intro c cs s w s' _ hw _ ih1 ih2
+    exact ⟨RendersList.cons c cs s w s' ih1.1 hw ih2.1, by simp [g3List, ih1.2, ih2.2]⟩
+
+/-- the strict grammar is exactly the full grammar on the trees that satisfy G3 -/
+theorem renders_strict_iff (t : Tree) (s : Str) : Renders true t s ↔ (Renders false t s ∧ g3Tree t = true) :=
+  ⟨renders_strict_g3, fun h => renders_strict_of_g3 h.1 h.2⟩
+
+/-- **C02_complete_g3**: every rendering of the full grammar of DESIGN 6.2 — every end-tag / whitespace / CDATA choice,
+    white space after `]]>` included — of a tree in which no aggregate ends with a data element bearing the
+    aggregate's own tag parses to exactly that tree -/
+theorem C02_complete_g3 (t : Tree) (s : Str) (h : Renders false t s) (hg : g3Tree t = true) : parse s = .ok (some t) :=
+  C02_complete_partial t s (renders_strict_of_g3 h hg)
+
+/-- the guard of `C02_complete_g3` holds of a non-trivial tree (nested aggregates of the same tag, a data element
+    bearing its parent's tag that is not the last child) -/
+example : g3Tree (Tree.agg ['A'] [Tree.leaf ['A'] ['1'], Tree.agg ['A'] [Tree.leaf ['B'] ['x'], Tree.agg ['B'] []]]) = true := by
+  decide
+
 /-! ### the full-strength statement fails on the pinned parser; each guard is needed -/
 
 private def tA : Str := ['A']
@@ -460,24 +531,40 @@ theorem C02_G1_repaired : parse witnessG1 = .ok (some witnessG1Tree) :=
 
 /-- `<A><B><![CDATA[x]]> </B></A>`: whitespace between `]]>` and the element's own end tag -/
 def witnessG2 : Str := "<A><B><![CDATA[x]]> </B></A>".toList
+def witnessG2Tree : Tree := Tree.agg tA [Tree.leaf tB dx]
 
-theorem witnessG2_renders : Renders false (Tree.agg tA [Tree.leaf tB dx]) witnessG2 := by
+theorem witnessG2_renders (strict : Bool) : Renders strict witnessG2Tree witnessG2 := by
   have e : witnessG2 = startTag tA ++ ([] ++ (((startTag tB ++ (cdataOf dx ++ ([' '] ++ endTag tB))) ++ ([] ++ [])) ++ endTag tA)) := by
     decide
   rw [e]
-  refine Renders.agg tA [] _ _ (by decide) (by decide) ?_ (by intro h; cases h)
+  refine Renders.agg tA [] _ _ (by decide) (by decide) ?_ (by intro _ c hc; cases hc; decide)
   exact RendersList.cons _ _ _ [] _
-    (Renders.cdataClosed tB dx [' '] (by decide) (by decide) (by decide) (by decide) (by intro h; cases h)) (by decide)
+    (Renders.cdataClosed tB dx [' '] (by decide) (by decide) (by decide) (by decide)) (by decide)
     RendersList.nil
 
-/-- **C02_complete_full_false**: a full-grammar rendering that is rejected — the blank after `]]>` is taken as tail,
-    `</B>` is then read as the end tag of the enclosing aggregate and does not match (`ParseError`) -/
-theorem C02_complete_full_false : ¬ C02_complete_full := by
-  intro h
-  have := h _ _ witnessG2_renders
-  have e : parse witnessG2 = .error .parse := by rfl
-  rw [e] at this
-  cases this
+/-- the witness of the former guard G2 (the blank after `]]>` was taken as tail and `</B>` read as a stray end tag of
+    the enclosing aggregate: `ParseError`) now parses to the rendered tree -/
+theorem C02_G2_repaired : parse witnessG2 = .ok (some witnessG2Tree) :=
+  C02_complete_partial _ _ (witnessG2_renders true)
+
+/-- a larger instance of the former guard G2: line breaks and other white space after `]]>`, with and without the
+    element's own end tag, followed by a sibling or by the parent's end tag -/
+def exampleG2 : Str := "<A>\n<B><![CDATA[x]]>\r\n </B>\n<C><![CDATA[a b]]>\t\n<D><![CDATA[>]]>\u00a0</D></A>".toList
+
+theorem C02_G2_example : parse exampleG2 =
+    .ok (some (Tree.agg tA [Tree.leaf tB dx, Tree.leaf tC "a b".toList, Tree.leaf ['D'] ['>']])) := by
+  have e : exampleG2 = startTag tA ++ (['\n'] ++ (
+      ((startTag tB ++ (cdataOf dx ++ ("\r\n ".toList ++ endTag tB))) ++ (['\n'] ++
+      ((startTag tC ++ cdataOf "a b".toList) ++ ("\t\n".toList ++
+      ((startTag ['D'] ++ (cdataOf ['>'] ++ (['\u00a0'] ++ endTag ['D']))) ++ ([] ++ []))))))
+      ++ endTag tA)) := by decide
+  rw [e]
+  refine C02_complete_partial _ _ ?_
+  refine Renders.agg tA _ _ _ (by decide) (by decide) ?_ (by intro _ c hc; cases hc; decide)
+  refine RendersList.cons _ _ _ _ _ (Renders.cdataClosed tB dx _ (by decide) (by decide) (by decide) (by decide)) (by decide) ?_
+  refine RendersList.cons _ _ _ _ _ (Renders.cdataOpen tC _ (by decide) (by decide) (by decide)) (by decide) ?_
+  exact RendersList.cons _ _ _ _ _ (Renders.cdataClosed ['D'] ['>'] _ (by decide) (by decide) (by decide) (by decide)) (by decide)
+    RendersList.nil
 
 /-- `<A><B><B>1</B><C>2</A>`: the last child of aggregate B is an unclosed data element B -/
 def witnessG3 : Str := "<A><B><B>1</B><C>2</A>".toList
@@ -495,7 +582,7 @@ theorem witnessG3_renders : Renders false witnessG3Tree witnessG3 := by
   · exact RendersList.cons _ _ _ [] _ (Renders.leafOpen tC ['2'] [] (by decide) (by decide) (by decide)) (by decide)
       RendersList.nil
 
-/-- G3 cannot be dropped either: `</B>` is taken as the data element's own end tag, aggregate `B` stays open and
+/-- G3 cannot be dropped: `</B>` is taken as the data element's own end tag, aggregate `B` stays open and
     `</A>` does not match it (`ParseError`) -/
 theorem C02_G3_needed : ¬ ∀ t s, Renders false t s → parse s = .ok (some t) := by
   intro h
@@ -503,6 +590,10 @@ theorem C02_G3_needed : ¬ ∀ t s, Renders false t s → parse s = .ok (some t)
   have e : parse witnessG3 = .error .parse := by rfl
   rw [e] at this
   cases this
+
+/-- **C02_complete_full_false**: a full-grammar rendering that is rejected (the G3 witness; the former G2 witness is
+    accepted since the repair, `C02_G2_repaired`) -/
+theorem C02_complete_full_false : ¬ C02_complete_full := C02_G3_needed
 
 /-- the guards of `C02_complete_partial` are satisfiable by a non-trivial body: nested aggregates, an SGML leaf, an XML
     leaf with padding, a CDATA leaf with end tag, an empty aggregate, line breaks -/
@@ -524,7 +615,7 @@ example : ∃ t, Renders true t exampleBody := by
   refine RendersList.cons _ _ _ _ _ (Renders.leafClosed _ _ _ _ (by decide) (by decide) (by decide) (by decide)) (by decide) ?_
   refine RendersList.cons _ _ _ _ _ ?_ (by decide) RendersList.nil
   refine Renders.agg tB [] _ _ (by decide) (by decide) ?_ (by intro _ c hc; cases hc; decide)
-  refine RendersList.cons _ _ _ _ _ (Renders.cdataClosed _ _ [] (by decide) (by decide) (by decide) (by decide) (fun _ => rfl))
+  refine RendersList.cons _ _ _ _ _ (Renders.cdataClosed _ _ [] (by decide) (by decide) (by decide) (by decide))
     (by decide) ?_
   exact RendersList.cons _ _ _ _ _ (Renders.agg ['E'] [] [] [] (by decide) (by decide) RendersList.nil (by intro _ c hc; cases hc))
     (by decide) RendersList.nil
@@ -534,7 +625,7 @@ example : ∃ t, Renders true t exampleBody := by
 theorem ok_after (strict : Bool) (r : RTree) (h : r.ok strict = true) : ws r.after = true := by
   cases r with
   | leaf t d w1 w2 close a => simp only [RTree.ok, Bool.and_eq_true] at h; exact h.2
-  | cdata t d w close a => simp only [RTree.ok, Bool.and_eq_true] at h; exact h.1.2
+  | cdata t d w close a => simp only [RTree.ok, Bool.and_eq_true] at h; exact h.2
   | agg t w0 kids a => simp only [RTree.ok, Bool.and_eq_true] at h; exact h.1.1.2
 
 mutual
@@ -548,12 +639,9 @@ mutual
       | false => exact Renders.leafOpen t d w1 ht hd h1
     | .cdata t d w close a, h => by
       simp only [RTree.ok, Bool.and_eq_true] at h
-      obtain ⟨⟨⟨⟨⟨ht, hd⟩, hcd⟩, hw⟩, _⟩, hs⟩ := h
+      obtain ⟨⟨⟨⟨ht, hd⟩, hcd⟩, hw⟩, _⟩ := h
       cases close with
-      | true =>
-        refine Renders.cdataClosed t d w ht hd hcd hw ?_
-        intro hst; subst hst
-        simpa using hs
+      | true => exact Renders.cdataClosed t d w ht hd hcd hw
       | false => exact Renders.cdataOpen t d ht hd hcd
     | .agg t w0 kids a, h => by
       simp only [RTree.ok, Bool.and_eq_true] at h
